@@ -93,7 +93,7 @@ func (g *gen) summaryOf(pn, key string, from *tr) (sm *summary) {
 func (g *gen) newTr(p *pkg, key string, fd *ast.FuncDecl, resParam int, recvMode bool, aliasArg int) *tr {
 	t := &tr{g: g, p: p, fd: fd, key: key, env: map[string]*binding{}, paramRead: map[int]bool{},
 		writes: map[int]bool{}, retAlias: -2, resParam: resParam, secUsed: map[string]bool{},
-		globals: map[string]*val{}, recvMode: recvMode, aliasArg: aliasArg}
+		globals: map[string]*val{}, recvMode: recvMode, aliasArg: aliasArg, resAlias: map[int]bool{}}
 	_, t.destRecv = destinations[p.name+"."+key]
 	add := func(name string, ty *typ, recv bool) {
 		i := len(t.params)
@@ -137,7 +137,9 @@ func (g *gen) newTr(p *pkg, key string, fd *ast.FuncDecl, resParam int, recvMode
 			o := t.newObject(ty.sd, cn, org)
 			o.pidx, o.hint, o.pw = i, cn, true
 			v = &val{t: ty, o: o}
-		case kBool, kInt, kZList, kIface, kSlice:
+		case kSlice:
+			v = &val{t: ty, e: cn, spare: true} // (the caller's slice may have spare capacity: append could write into it)
+		case kBool, kInt, kZList, kIface:
 			v = &val{t: ty, e: cn}
 		case kList:
 			if intList(ty) {
@@ -232,7 +234,7 @@ func (g *gen) translate(p *pkg, key string, fd *ast.FuncDecl) *summary {
 	if t.retAlias >= 0 {
 		sm.retAlias = t.retAlias
 	}
-	sm.inplace, sm.destRecv = t.inplace, t.destRecv
+	sm.inplace, sm.destRecv, sm.resAlias = t.inplace, t.destRecv, t.resAlias
 	for i := range t.writes {
 		if i != sm.retAlias && i != sm.resParam && !(i == 0 && t.destRecv) {
 			// (for a documented destination the receiver's final value is the
